@@ -92,24 +92,7 @@ func checkC18(c *Ctx, r *Report) {
 				return
 			}
 			key := fname(f) + ":NewRequestWithContext"
-			v := getCall(in).Args[0]
-			ok := false
-			for d := 0; d < 4 && v != nil; d++ {
-				if _, isP := v.(*ssa.Parameter); isP {
-					ok = true
-					break
-				}
-				call, isC := v.(*ssa.Call)
-				if !isC {
-					break
-				}
-				ci := describeCall(&call.Call)
-				if ci.Pkg == "context" && strings.HasPrefix(ci.Name, "With") {
-					v = call.Call.Args[0]
-					continue
-				}
-				break
-			}
+			ok := ctxBoundToCaller(c, getCall(in).Args[0], f, 4)
 			if ok {
 				r.OK("C18-R4", key, in.Pos(), "upstream request carries the caller's context: a client abort cancels the upstream request")
 			} else {
@@ -206,10 +189,15 @@ func checkC18(c *Ctx, r *Report) {
 			Old: "	case <-readTimer.C:\n		// Read timeout - critical for detecting stalled backends", New: "	case <-time.After(24 * time.Hour):\n		// Read timeout - critical for detecting stalled backends"},
 		Mutant{Prop: "C18", Name: "background-context", File: "internal/adapter/proxy/sherpa/service_retry.go", Rule: "C18-R4",
 			Old: "proxyReq, err := http.NewRequestWithContext(ctx, r.Method", New: "proxyReq, err := http.NewRequestWithContext(context.Background(), r.Method"},
+		Mutant{Prop: "C18", Name: "upstream-context-without-cancel", File: "internal/adapter/proxy/olla/service_retry.go", Rule: "C18-R4",
+			Old: "	proxyReq, err := s.prepareProxyRequest(ctx, r, targetURL, stats)\n", New: "	upCtx, cancelUp := context.WithCancel(context.WithoutCancel(ctx))\n	defer cancelUp()\n	proxyReq, err := s.prepareProxyRequest(upCtx, r, targetURL, stats)\n"},
 		Mutant{Prop: "C18", Name: "unbuffered-err-chan", File: "internal/app/handlers/handler_translation.go", Rule: "C18-R5",
 			Old: "	proxyErrChan := make(chan error, 1)", New: "	proxyErrChan := make(chan error)"},
 		Mutant{Prop: "C18", Name: "pipe-not-released", File: "internal/app/handlers/handler_translation.go", Rule: "C18-R6",
 			Old: "	pipeReader.Close()\n\n	// Wait for proxy to complete", New: "	// Wait for proxy to complete"},
+		Mutant{Prop: "C18", Name: "pipe-close-deferred-past-the-wait", File: "internal/app/handlers/handler_translation.go", Rule: "C18-R6",
+			Old: "	transformErr := trans.TransformStreamingResponse(ctx, pipeReader, w, r)\n", New: "	defer pipeReader.Close()\n	transformErr := trans.TransformStreamingResponse(ctx, pipeReader, w, r)\n",
+			Edits: []Edit{{"internal/app/handlers/handler_translation.go", "	// in a pipe write is released; otherwise it and this handler wait on each other forever.\n	pipeReader.Close()\n", "	// in a pipe write is released; otherwise it and this handler wait on each other forever.\n"}}},
 		Mutant{Prop: "C18", Name: "bounded-error-drain", File: "internal/app/handlers/handler_translation.go", Rule: "C18-R6",
 			Old: "	errorBody, _ := io.ReadAll(pipeReader)", New: "	errorBody, _ := io.ReadAll(io.LimitReader(pipeReader, 64<<10))"},
 		Mutant{Prop: "C18", Name: "deferred-drain", File: "internal/adapter/proxy/sherpa/service_retry.go", Rule: "C18-R7",
@@ -660,6 +648,9 @@ func checkPipeRelease(c *Ctx, r *Report) {
 				if cc == nil {
 					return false
 				}
+				if _, deferred := i.(*ssa.Defer); deferred {
+					return false // runs when the function returns — after the wait it is supposed to unblock
+				}
 				ci := describeCall(cc)
 				if ci.Recv == "PipeReader" && (ci.Name == "Close" || ci.Name == "CloseWithError") && len(cc.Args) > 0 && isPipeReader(cc.Args[0].Type()) {
 					return true
@@ -680,4 +671,84 @@ func checkPipeRelease(c *Ctx, r *Report) {
 			}
 		})
 	}
+}
+
+
+// ctxBoundToCaller: the context value is the enclosing function's context parameter — followed through the static
+// callers of helper functions — possibly wrapped by cancellation-preserving derivations (WithValue, WithTimeout,
+// WithDeadline, WithCancel and their *Cause forms). context.WithoutCancel, Background and TODO cut the link to the
+// client's connection.
+func ctxBoundToCaller(c *Ctx, v ssa.Value, f *ssa.Function, depth int) bool {
+	for d := 0; d < 6 && v != nil; d++ {
+		switch x := v.(type) {
+		case *ssa.Parameter:
+			if depth == 0 {
+				return true
+			}
+			idx := -1
+			for i, p := range f.Params {
+				if p == x {
+					idx = i
+				}
+			}
+			all, sites := true, 0
+			for _, g := range c.Funcs {
+				eachInstr(g, func(in ssa.Instruction) {
+					cc := getCall(in)
+					if cc == nil || cc.StaticCallee() != f || idx < 0 || idx >= len(cc.Args) {
+						return
+					}
+					sites++
+					if !ctxBoundToCaller(c, cc.Args[idx], g, depth-1) {
+						all = false
+					}
+				})
+			}
+			return sites == 0 || all
+		case *ssa.FreeVar:
+			return true
+		case *ssa.UnOp:
+			// a context variable that a closure captures lives in a cell: every value stored into it must be bound
+			al, isAl := x.X.(*ssa.Alloc)
+			if x.Op != token.MUL || !isAl {
+				if fv, isFV := x.X.(*ssa.FreeVar); isFV && x.Op == token.MUL {
+					_ = fv
+					return true
+				}
+				return false
+			}
+			n := 0
+			for _, ref := range *al.Referrers() {
+				if st, ok := ref.(*ssa.Store); ok && st.Addr == ssa.Value(al) {
+					n++
+					if !ctxBoundToCaller(c, st.Val, f, depth) {
+						return false
+					}
+				}
+			}
+			return n > 0
+		case *ssa.Extract:
+			v = x.Tuple
+		case *ssa.Phi:
+			for _, e := range x.Edges {
+				if !ctxBoundToCaller(c, e, f, depth) {
+					return false
+				}
+			}
+			return true
+		case *ssa.Call:
+			ci := describeCall(&x.Call)
+			if ci.Pkg == "context" && strings.HasPrefix(ci.Name, "With") && ci.Name != "WithoutCancel" && len(x.Call.Args) > 0 {
+				v = x.Call.Args[0]
+				continue
+			}
+			if ci.Pkg == "net/http" && ci.Recv == "Request" && ci.Name == "Context" {
+				return true // the inbound request's own context
+			}
+			return false
+		default:
+			return false
+		}
+	}
+	return false
 }
